@@ -8,6 +8,7 @@ import SakuraVerif.Driver.CoreOps
 import SakuraVerif.Driver.ScriptOps
 import SakuraVerif.Driver.TimeOps
 import SakuraVerif.Model.Tie
+import SakuraVerif.Driver.ReserveOps
 open Sakura Sakura.Wire Sakura.Driver
 
 def handle (line : String) : String :=
@@ -37,6 +38,7 @@ def handle (line : String) : String :=
   | ["tieflush", mode, ch, tb, br, tv, evs] =>
       let r := Sakura.Tie.flush (parseInt mode) (parseInt ch) (parseInt tb) (parseInt br) (parseInt tv) (parseEvents evs)
       s!"ok ev={showEvents r.1} br={r.2}"
+  | ["reserve", prog] => "ok " ++ reserveRun prog
   | _ => "bad-op"
 
 partial def loop (h : IO.FS.Stream) (out : IO.FS.Stream) : IO Unit := do
